@@ -381,7 +381,7 @@ def _semantic(ctx, rid, repo):
             return PyFunc(lambda a, k: Obj("hash", {"hex": f"{alg}:{a[0]}"}), alg)
 
         w = World(ext, module_env={"log": Obj("log"), "schema": Obj("schema"), "exceptions": Obj("exceptions"), "json": Obj("json"), "utils": Obj("utils"), "jsonpatch": Obj("jsonpatch"),
-                                   "hashlib": Obj("hashlib", {"sha256": hasher("sha256"), "md5": hasher("md5")}, closed=True)})
+                                   "hashlib": Obj("hashlib", {alg_: hasher(alg_) for alg_ in sorted({"sha256", "md5"} | set(_schema_digest_algorithms(repo)))}, closed=True)})
         w.add_class(psc).add_class(pc)
         for q, f in repo.module(UT).funcs.items():
             if "." not in q:
@@ -493,6 +493,16 @@ def _semantic(ctx, rid, repo):
             probs.append("a wrong md5 digest is ignored when the sha256 digest matches")
         except RaisedInFragment:
             pass
+        # every algorithm the SHIPPED schema admits in a patch set's `digests` takes part in verification: a set listing it with a
+        # digest that does not match is refused, whatever else matches
+        for alg_ in sorted(_schema_digest_algorithms(repo)):
+            others = {a_: w.call_func(repo.func(UT, "digest"), [workspace()], {"algorithm": a_}) for a_ in _schema_digest_algorithms(repo) if a_ != alg_}
+            ps3 = w.new(psc, [setspec(copy.deepcopy(good), {**others, alg_: f"{alg_}:not the digest of this workspace"})], {})
+            try:
+                w.call_method(ps3, "verify", [workspace()])
+                probs.append(f"a patch set whose recorded {alg_} digest does not match verifies all the same (the schema admits `{alg_}`; verification does not look at it)")
+            except RaisedInFragment:
+                pass
         same = workspace()
         if verdict(same) == "accepted":
             same["channels"][0]["samples"][0]["data"][0] = Poly.atom("n_changed_later")
@@ -616,3 +626,15 @@ def _schema_values(ctx, rid, repo):
             ctx.violated(rid, repo.module(PS), site, "the shipped schema no longer admits arbitrary numeric value tuples for a patch: " + "; ".join(problems) + " -- a patch set whose names and value tuples are pairwise distinct is refused (e.g. a grid point with two equal coordinates)", expected='{"type": "array", "items": {"anyOf": [{"type": "number"}, ...]}} and annotations only', found=json.dumps(values)[:200])
         else:
             ctx.holds(rid, site, f"array of {json.dumps(items)[:80]}; no restricting keyword")
+
+
+def _schema_digest_algorithms(repo):
+    """algorithm names the shipped patch-set schema(s) admit under metadata.digests"""
+    import json
+    out = set()
+    for fpath in sorted((repo.root / "src" / "pyhf" / "schemas").glob("*/defs.json")):
+        try:
+            out |= set(json.loads(fpath.read_text(encoding="utf-8"))["definitions"]["patchset"]["digests"].get("properties", {}))
+        except (KeyError, TypeError, ValueError):
+            pass
+    return sorted(out) or ["md5", "sha256"]
